@@ -18,8 +18,25 @@ theorem isWs_nl : isWs '\n' = true := by decide
 theorem isWs_q1 : isWs q1 = false := by decide
 theorem isWs_q2 : isWs q2 = false := by decide
 
-/-- The characters a single-line value may contain: any non-blank character, space and tab. -/
-def SingleLine (v : Str) : Prop := ∀ c ∈ v, isWs c = true → c = ' ' ∨ c = '\t'
+/-- No character that `str.splitlines()` treats as a line boundary. -/
+def NoBreak (w : Str) : Prop := ∀ c ∈ w, isBreak c = false
+
+instance (w : Str) : Decidable (NoBreak w) := by unfold NoBreak; infer_instance
+
+/-- A single-line value: any characters (blanks, tabs, no-break spaces, …) except line boundaries. -/
+def SingleLine (v : Str) : Prop := NoBreak v
+
+theorem isWs_of_isBreak (c : Char) (h : isBreak c = true) : isWs c = true := by
+  simp only [isBreak, Bool.or_eq_true, beq_iff_eq] at h
+  unfold isWs
+  simp only [Bool.or_eq_true, Bool.and_eq_true, decide_eq_true_eq, beq_iff_eq]
+  omega
+
+theorem noBreak_of_nows (w : Str) (h : ∀ c ∈ w, isWs c = false) : NoBreak w := by
+  intro c hc
+  cases hb : isBreak c with
+  | false => rfl
+  | true => have := isWs_of_isBreak c hb; rw [h c hc] at this; exact absurd this (by simp)
 
 def BothQuotes (v : Str) : Prop := q1 ∈ v ∧ q2 ∈ v
 
@@ -381,8 +398,8 @@ theorem safeHead_quoted (q : Char) (v : Str) (hq : q = q1 ∨ q = q2) : SafeHead
   rcases hq with rfl | rfl <;> constructor <;> simp [quoteWith, q1, q2, sData, sLoop, List.isPrefixOf]
 
 theorem singleLine_no_nl (v : Str) (h : SingleLine v) : '\n' ∉ v := fun hm => by
-  have := h '\n' hm isWs_nl
-  rcases this with e | e <;> simp at e
+  have := h '\n' hm
+  simp [isBreak] at this
 
 theorem escape_tok (v : Str) (hs : SingleLine v) (hb : ¬ BothQuotes v) :
     Tok v (escape v) ∧ SafeHead (escape v) := by
@@ -423,6 +440,9 @@ theorem escape_tok (v : Str) (hs : SingleLine v) (hb : ¬ BothQuotes v) :
   by_cases h5 : has '\t' v = true
   · simp only [h5, if_true]; exact hquote
   simp only [h5, Bool.false_eq_true, if_false]
+  by_cases h5b : v.any isWs = true
+  · simp only [h5b, if_true]; exact hquote
+  simp only [h5b, Bool.false_eq_true, if_false]
   by_cases h6 : (v.head? == some '#' || v.head? == some ';' || sData.isPrefixOf v || sLoop.isPrefixOf v) = true
   · simp only [h6, if_true]; exact hquote
   simp only [h6, Bool.false_eq_true, if_false]
@@ -434,9 +454,10 @@ theorem escape_tok (v : Str) (hs : SingleLine v) (hb : ¬ BothQuotes v) :
     cases hw : isWs c with
     | false => rfl
     | true =>
-      rcases hs c hc hw with e | e
-      · exact absurd (e ▸ hc) h4'
-      · exact absurd (e ▸ hc) h5'
+      exfalso
+      apply h5b
+      simp only [List.any_eq_true]
+      exact ⟨c, hc, hw⟩
   · simpa using h6.1.1.2
   · simpa using h6.1.1.1
   · simpa using h3
